@@ -369,6 +369,18 @@ static unsigned long scenario(Config **out)
   c->readString(TEXT);
   { std::string sv; if (c->lookupValue("name", sv)) h = hstr(h, sv.c_str()); }
   { const char *cs = NULL; if (c->lookupValue("grp.l.[0]", cs)) h = hstr(h, cs); }
+  /* Setting::lookupValue, every overload, on children that have no wrapper yet (the tree was just re-read): an
+   * allocation failure inside them is std::bad_alloc too, not "no such member" */
+  { Setting &rr = c->getRoot(); Setting &gg = rr["grp"];
+    int iv = 0; unsigned int uv = 0; long long lv = 0; unsigned long long ulv = 0; double dv = 0; float fv = 0; bool bv = false;
+    std::string sv; const char *cs = NULL;
+    if (gg.lookupValue("a", iv)) h += (unsigned long)iv;           if (gg.lookupValue("a", uv)) h += uv;
+    if (gg.lookupValue("a", lv)) h += (unsigned long)lv;           if (gg.lookupValue("a", ulv)) h += (unsigned long)ulv;
+    if (gg.lookupValue("b", dv)) h += (unsigned long)(dv * 10);    if (gg.lookupValue("b", fv)) h += (unsigned long)(fv * 10);
+    if (rr.lookupValue("name", sv)) h = hstr(h, sv.c_str());       if (rr.lookupValue("name", cs)) h = hstr(h, cs);
+    if (gg["l"][1].lookupValue("y", bv)) h += bv ? 7 : 3;
+    if (!rr.lookupValue("k17", iv)) h += 1000003;                  if (rr.lookupValue("missing", iv)) h += 99;
+    if (rr.exists("k16")) h += 5; }
   c->getRoot().remove("grp");
   in_lib = 0;
   h = digest(config_root_setting(c->_config), h);
